@@ -223,6 +223,23 @@ def gen_pairs(ctx):
             else: rx["sc"] = sc + k
             what = "counter-behind"
         out.append({"tx": tx, "rx": rx, "d_tx": d, "d_rx": d_rx, "tol": tol, "pdu": pdu.hex(), "what": what})
+    # counters at and above 2^32 (the packet counter has 39 bits; bits 32..38 share the fifth nonce byte with the
+    # direction bit): a sender ahead by a multiple of 2^32 must be rejected like any other skew beyond the tolerance,
+    # and the ciphertext/MIC at such counters must be the reference AES-CCM output (judge_pair, "ref_body")
+    big = [2 ** 32, 2 ** 32 + 5, 2 ** 38, 2 ** 39 - 1]
+    for i in range(48 if ctx.thorough else 16):
+        ltk, mat = rand_material(rng, 5)
+        d = M2S if i % 2 == 0 else S2M
+        tol = rng.choice([1, 2, 2, 3])
+        pdu = rand_pdu(rng, rng.choice([0, 1, 16, 27, 251]))
+        c_tx = big[(i // 2) % 4]
+        delta = rng.choice([2 ** 32, 2 ** 32, 2 ** 33, 2 ** 38, c_tx - c_tx % 2 ** 32])
+        c_rx = c_tx - delta if c_tx - delta >= 0 else c_tx % 2 ** 32
+        oth = rand_counter(rng)
+        tx = {"ltk": ltk, "mat": mat, "mc": c_tx if d == M2S else oth, "sc": oth if d == M2S else c_tx}
+        rx = {"ltk": ltk, "mat": list(mat), "mc": c_rx if d == M2S else oth, "sc": oth if d == M2S else c_rx}
+        out.append({"tx": tx, "rx": rx, "d_tx": d, "d_rx": d, "tol": tol, "pdu": pdu.hex(),
+                    "what": "counter-ahead-by-multiple-of-2^32"})
     return out
 
 
@@ -586,6 +603,9 @@ def judge_pair(ctx, p, res):
     case = {"op": "pair", **p}
     if "exc" in res:
         return ctx.violation("encrypt raised " + res["exc"], case)
+    if "ref_body" in res and res["ct"][4:] != res["ref_body"]:
+        return ctx.violation("ciphertext/MIC differ from AES-CCM with the specified nonce (39-bit counter, direction bit, IV) computed by the independent reference",
+                             case, expected=res["ref_body"], observed=res["ct"][4:])
     r = res["res"]
     if r["k"] != 2:
         return ctx.violation("PDU accepted with wrong %s" % p["what"], case, expected="failure", observed=r)
